@@ -86,9 +86,10 @@ Variable sid : Z.
 Variable pu : option Z.          (* push id: None on a request stream, Some p on a push stream (behind its header) *)
 Variable sy : option Z.          (* stream type: None / Some 1 *)
 Variable blk : Z -> list Z.      (* the header block the sender's QPACK encoder produced for header list h *)
+Variable bp : option Z.          (* blocked_push_id: whatever an earlier PUSH_PROMISE left there (None on a new stream) *)
 
 (* the receiving stream inside a delivery that carries the FIN: nothing open, receiving side ended *)
-Definition rstate (hs clen : Z) (ex : option Z) : hstream := mkS sid [] None None false true hs clen ex pu sy None None.
+Definition rstate (hs clen : Z) (ex : option Z) : hstream := mkS sid [] None None false true hs clen ex pu sy None bp.
 
 Definition data_ev (d : list Z) (ended : bool) : list event :=
   if ended || negb (is_nil d) then [EData sid pu d ended] else [].
@@ -113,7 +114,7 @@ Proof.
   unfold handle_rp_frame, set_clen, rstate.
   cbn [s_id s_buf s_cur s_session s_blocked s_ended s_hstate s_clen s_expect s_push s_stype s_btype s_bpush
        Z.eqb Pos.eqb negb andb].
-  change (mkS sid [] None None false true 1 (n + Zlen d) ex pu sy None None) with (rstate 1 (n + Zlen d) ex).
+  change (mkS sid [] None None false true 1 (n + Zlen d) ex pu sy None bp) with (rstate 1 (n + Zlen d) ex).
   destruct (is_nil rest) eqn:En.
   - rewrite (check_cl_ok 1 _ ex (Hcl eq_refl)). cbn [negb andb orb]. unfold data_ev. cbn [orb]. reflexivity.
   - cbn [andb orb]. unfold data_ev. cbn [orb]. destruct (negb (is_nil d)); reflexivity.
@@ -170,7 +171,7 @@ Proof.
   cbn [s_id s_buf s_cur s_session s_blocked s_ended s_hstate s_clen s_expect s_push s_stype s_btype s_bpush
        Z.eqb Pos.eqb negb andb].
   rewrite Hdec, Hval. cbn [negb].
-  change (mkS sid [] None None false true 0 0 ecl pu sy None None) with (rstate 0 0 ecl).
+  change (mkS sid [] None None false true 0 0 ecl pu sy None bp) with (rstate 0 0 ecl).
   destruct (is_nil rest) eqn:En.
   - rewrite (check_cl_ok 0 0 ecl (Hcl eq_refl)). reflexivity.
   - reflexivity.
@@ -190,7 +191,7 @@ Proof.
   cbn [s_id s_buf s_cur s_session s_blocked s_ended s_hstate s_clen s_expect s_push s_stype s_btype s_bpush
        Z.eqb Pos.eqb negb andb is_nil].
   rewrite Hdec. destruct (o_val O 2 t) as [ok e0]. cbn [fst] in Hval. subst ok. cbn [negb].
-  change (mkS sid [] None None false true 1 n ex pu sy None None) with (rstate 1 n ex).
+  change (mkS sid [] None None false true 1 n ex pu sy None bp) with (rstate 1 n ex).
   rewrite (check_cl_ok 1 n ex Hcl). cbn [negb]. rewrite rq_loop_nil. reflexivity.
 Qed.
 
@@ -204,7 +205,7 @@ Definition msg_atoms (h : Z) (body : list (list Z)) (tr : option Z) : list atom 
   AHeaders sid pu h :: map (AByte sid pu) (concat body) ++
   (match tr with Some t => [AHeaders sid pu t] | None => [] end) ++ [AEnd sid].
 
-Definition fresh_recv : hstream := mkS sid [] None None false false 0 0 None pu sy None None.
+Definition fresh_recv : hstream := mkS sid [] None None false false 0 0 None pu sy None bp.
 
 Lemma body_frames_nil : forall body, is_nil (concat (map (encode_frame 0) body)) = is_nil body.
 Proof. destruct body as [|d body]; [reflexivity|]. cbn [map concat]. unfold encode_frame, encode_uint_var. cbn. reflexivity. Qed.
@@ -217,6 +218,50 @@ Qed.
 
 Lemma is_nil_app : forall {A} (a b : list A), is_nil (a ++ b) = is_nil a && is_nil b.
 Proof. destruct a; reflexivity. Qed.
+
+(* the frame loop over the bytes of one message *)
+Lemma loop_message : forall (F : nat) h body tr ecl evs,
+  Zlen (blk h) < 4611686018427387904 -> Forall (fun d => Zlen d < 4611686018427387904) body ->
+  match tr with Some t => Zlen (blk t) < 4611686018427387904 /\ o_dec O sid (blk t) = DHeaders t /\ fst (o_val O 2 t) = true
+              | None => True end ->
+  o_dec O sid (blk h) = DHeaders h -> o_val O (if cl then 1 else 0) h = (true, ecl) ->
+  cl_ok ecl (Zlen (concat body)) ->
+  2 * Zlen (msg_bytes h body tr) < Z.of_nat F ->
+  exists e st, norm e = msg_atoms h body tr /\ s_blocked st = false /\ s_buf st = [] /\ s_cur st = None /\
+    rq_loop F fx O cl true (rstate 0 0 None) (msg_bytes h body tr) evs = RVal (evs ++ e) st.
+Proof.
+  intros F h body tr ecl evs Hb Hbody Htrl Hdec Hval Hcl HFuel.
+  assert (HF : forall st b, s_cur st = None -> Zlen b <= Zlen (msg_bytes h body tr) -> measure st b < Z.of_nat F).
+  { intros st b Hc Hl. unfold measure. rewrite Hc. cbn [is_none]. lia. }
+  unfold msg_bytes at 1.
+  set (trb := match tr with Some t => encode_frame 1 (blk t) | None => [] end).
+  assert (L1 : Zlen (concat (map (encode_frame 0) body) ++ trb) <= Zlen (msg_bytes h body tr)).
+  { unfold msg_bytes. fold trb. rewrite !Zlen_app. pose proof (Zlen_nonneg (encode_frame 1 (blk h))). lia. }
+  assert (L2 : Zlen trb <= Zlen (msg_bytes h body tr)).
+  { unfold msg_bytes. fold trb. rewrite !Zlen_app. pose proof (Zlen_nonneg (encode_frame 1 (blk h))).
+    pose proof (Zlen_nonneg (concat (map (encode_frame 0) body))). lia. }
+  assert (NilT : is_nil trb = is_none tr) by (subst trb; destruct tr; [apply frame_nil | reflexivity]).
+  rewrite (step_headers F h _ evs ecl Hb Hdec Hval).
+  2:{ rewrite is_nil_app, body_frames_nil. intros Hn. apply andb_true_iff in Hn. destruct Hn as (Hn & _).
+      apply is_nil_true in Hn. subst body. exact Hcl. }
+  2:{ apply HF; [reflexivity|]. unfold msg_bytes. fold trb. lia. }
+  destruct (steps_body body F trb 0 ecl (evs ++ [EHeaders sid pu h (is_nil (concat (map (encode_frame 0) body) ++ trb))]) Hbody)
+    as (e2 & Hn2 & Heq).
+  { intros _. exact Hcl. }
+  { apply HF; [reflexivity | exact L1]. }
+  rewrite Heq. cbn [Z.add].
+  rewrite is_nil_app, body_frames_nil, NilT in *.
+  destruct tr as [t|].
+  - destruct Htrl as (Hbt & Hdt & Hvt). subst trb.
+    rewrite (step_trailers F t _ ecl _ Hbt Hdt Hvt Hcl) by (apply HF; [reflexivity | exact L2]).
+    eexists _, _. split; [|split; [|split; [|split]]]; [| | | | rewrite <- !app_assoc; reflexivity]; try reflexivity.
+    rewrite !norm_app, Hn2. cbn [is_none andb norm flat_map atoms_of app]. rewrite andb_false_r.
+    unfold msg_atoms. cbn [app]. rewrite ?app_nil_r, <- ?app_assoc. reflexivity.
+  - subst trb. rewrite rq_loop_nil.
+    eexists _, _. split; [|split; [|split; [|split]]]; [| | | | rewrite <- !app_assoc; reflexivity]; try reflexivity.
+    rewrite !norm_app, Hn2. cbn [is_none andb norm flat_map atoms_of app].
+    unfold msg_atoms. destruct body as [|d body]; cbn [is_nil negb andb app concat map]; rewrite ?app_nil_r; reflexivity.
+Qed.
 
 (* WHOLE DELIVERY of a message (headers, any body pieces, optional trailers, FIN): the receiver reports exactly it *)
 Theorem recv_message : forall h body tr ecl,
@@ -234,39 +279,11 @@ Proof.
   assert (Nb : is_nil (msg_bytes h body tr) = false) by (unfold msg_bytes; rewrite is_nil_app, frame_nil; reflexivity).
   rewrite Nb. cbn [andb].
   replace (set_buf (set_ended (set_buf fresh_recv (msg_bytes h body tr)) true) []) with (rstate 0 0 None) by reflexivity.
-  set (F := rq_fuel (msg_bytes h body tr)).
-  assert (HF : forall st b, s_cur st = None -> Zlen b <= Zlen (msg_bytes h body tr) -> measure st b < Z.of_nat F).
-  { intros st b Hc Hl. unfold measure, F, rq_fuel. rewrite Hc. cbn [is_none]. unfold Zlen in *. lia. }
-  unfold msg_bytes at 1.
-  set (trb := match tr with Some t => encode_frame 1 (blk t) | None => [] end).
-  assert (L1 : Zlen (concat (map (encode_frame 0) body) ++ trb) <= Zlen (msg_bytes h body tr)).
-  { unfold msg_bytes. fold trb. rewrite !Zlen_app. pose proof (Zlen_nonneg (encode_frame 1 (blk h))). lia. }
-  assert (L2 : Zlen trb <= Zlen (msg_bytes h body tr)).
-  { unfold msg_bytes. fold trb. rewrite !Zlen_app. pose proof (Zlen_nonneg (encode_frame 1 (blk h))).
-    pose proof (Zlen_nonneg (concat (map (encode_frame 0) body))). lia. }
-  assert (NilT : is_nil trb = is_none tr) by (subst trb; destruct tr; [apply frame_nil | reflexivity]).
-  rewrite (step_headers F h _ [] ecl Hb Hdec Hval).
-  2:{ rewrite is_nil_app, body_frames_nil. intros Hn. apply andb_true_iff in Hn. destruct Hn as (Hn & _).
-      apply is_nil_true in Hn. subst body. exact Hcl. }
-  2:{ apply HF; [reflexivity|]. unfold msg_bytes. fold trb. lia. }
-  destruct (steps_body body F trb 0 ecl ([] ++ [EHeaders sid pu h (is_nil (concat (map (encode_frame 0) body) ++ trb))]) Hbody)
-    as (e2 & Hn2 & Heq).
-  { intros _. exact Hcl. }
-  { apply HF; [reflexivity | exact L1]. }
-  rewrite Heq. cbn [Z.add].
-  rewrite is_nil_app, body_frames_nil, NilT in *.
-  destruct tr as [t|].
-  - destruct Htrl as (Hbt & Hdt & Hvt). subst trb.
-    rewrite (step_trailers F t _ ecl _ Hbt Hdt Hvt Hcl) by (apply HF; [reflexivity | exact L2]).
-    unfold finish, rstate. cbn [s_blocked s_buf s_cur negb is_nil is_none orb andb events_of].
-    f_equal. rewrite !norm_app, Hn2. cbn [is_none andb norm flat_map atoms_of app]. rewrite andb_false_r.
-    unfold msg_atoms. cbn [app]. rewrite ?app_nil_r, <- ?app_assoc. reflexivity.
-  - subst trb. rewrite rq_loop_nil.
-    unfold finish, rstate, set_buf. cbn [s_blocked s_buf s_cur negb is_nil is_none orb andb events_of].
-    f_equal. rewrite !norm_app, Hn2. cbn [is_none andb norm flat_map atoms_of app].
-    unfold msg_atoms. destruct body as [|d body]; cbn [is_nil negb andb app concat map]; rewrite ?app_nil_r; reflexivity.
+  destruct (loop_message (rq_fuel (msg_bytes h body tr)) h body tr ecl [] Hb Hbody Htrl Hdec Hval Hcl)
+    as (e & st & Hn & S1 & S2 & S3 & Heq).
+  { unfold rq_fuel, Zlen. lia. }
+  rewrite Heq. unfold finish. rewrite S1, S2, S3. cbn [negb is_nil is_none orb andb events_of app]. rewrite Hn. reflexivity.
 Qed.
-
 
 Lemma fresh_recv_ok : stream_ok fresh_recv.
 Proof. repeat split; cbn; intros; try reflexivity; congruence. Qed.
@@ -416,7 +433,7 @@ Theorem roundtrip_message : forall (fx : fixes) (O : oracle) (cl : bool), fx_tru
   cl_ok ecl (Zlen (concat body)) ->
   first ++ concat parts = stream_bytes sid (swrites c (msg_ops sid blk encb h body tr)) ->
   stream_fin sid (swrites c (msg_ops sid blk encb h body tr)) = true /\
-  events_of (feed fx O cl (fresh_recv sid pu sy) (mk_chunks first parts true)) = Some (msg_atoms sid pu h body tr).
+  events_of (feed fx O cl (fresh_recv sid pu sy None) (mk_chunks first parts true)) = Some (msg_atoms sid pu h body tr).
 Proof.
   intros fx O cl Htr Hem sid pu sy blk encb c h body tr ecl first parts Hne Hs Hb Hbody Htrl Hdec Hval Hcl Hsplit.
   pose proof (send_message sid blk encb c h body tr Hne Hs) as S. unfold own in S.
@@ -433,4 +450,166 @@ Lemma send_message_split : forall (sid : Z) (blk encb : Z -> list Z) (c : sconn)
 Proof.
   intros sid blk encb c h body tr H1 H2. pose proof (send_message sid blk encb c h body tr H1 H2) as S. unfold own in S.
   split; [exact (f_equal fst S) | exact (f_equal snd S)].
+Qed.
+
+(* ------------------------------------------------------------------ the push leg *)
+(* client side, request stream: a PUSH_PROMISE frame (push id + header block of the promised request) in front of the
+   response: the promise is reported with its push id and header list, then the response as above *)
+Theorem recv_promise_message : forall (fx : fixes) (O : oracle), fx_trunc fx = true -> fx_endmark fx = true ->
+  forall (sid : Z) (sy : option Z) (blk : Z -> list Z) (pid hp h : Z) (body : list (list Z)) (tr ecl : option Z),
+  0 <= pid < 4611686018427387904 -> Zlen (encode_uint_var pid ++ blk hp) < 4611686018427387904 ->
+  o_dec O sid (blk hp) = DHeaders hp -> fst (o_val O 3 hp) = true ->
+  Zlen (blk h) < 4611686018427387904 -> Forall (fun d => Zlen d < 4611686018427387904) body ->
+  match tr with Some t => Zlen (blk t) < 4611686018427387904 /\ o_dec O sid (blk t) = DHeaders t /\ fst (o_val O 2 t) = true
+              | None => True end ->
+  o_dec O sid (blk h) = DHeaders h -> o_val O 1 h = (true, ecl) ->
+  cl_ok ecl (Zlen (concat body)) ->
+  events_of (rq_recv fx O true (fresh_recv sid None sy None)
+               (encode_frame 5 (encode_uint_var pid ++ blk hp) ++ msg_bytes blk h body tr) true)
+  = Some (APush sid pid hp :: msg_atoms sid None h body tr).
+Proof.
+  intros fx O Htr Hem sid sy blk pid hp h body tr ecl Hpid Hpl Hdp Hvp Hb Hbody Htrl Hdec Hval Hcl.
+  set (pf := encode_frame 5 (encode_uint_var pid ++ blk hp)).
+  set (bytes := pf ++ msg_bytes blk h body tr).
+  rewrite (rq_recv_fin fx O true Htr). cbv zeta.
+  change (s_buf (fresh_recv sid None sy None)) with (@nil Z). change (s_cur (fresh_recv sid None sy None)) with (@None (Z * Z)).
+  cbn [app is_none s_blocked s_session fresh_recv].
+  assert (Nm : is_nil (msg_bytes blk h body tr) = false) by (unfold msg_bytes; rewrite is_nil_app, frame_nil; reflexivity).
+  assert (Nb : is_nil bytes = false) by (subst bytes pf; rewrite is_nil_app, frame_nil; reflexivity).
+  rewrite Nb. cbn [andb].
+  replace (set_buf (set_ended (set_buf (fresh_recv sid None sy None) bytes) true) []) with (rstate sid None sy None 0 0 None)
+    by reflexivity.
+  set (F := rq_fuel bytes).
+  assert (LB : Zlen (msg_bytes blk h body tr) <= Zlen bytes) by (subst bytes; rewrite Zlen_app; pose proof (Zlen_nonneg pf); lia).
+  rewrite (loop_one_frame fx O true Htr Hem F true (rstate sid None sy None 0 0 None) bytes 5 (encode_uint_var pid ++ blk hp)
+             (msg_bytes blk h body tr) [] eq_refl (frame_at_encode 5 _ _ ltac:(lia) Hpl) eq_refl).
+  2:{ unfold measure, F, rq_fuel. cbn [rstate s_cur is_none]. unfold Zlen. lia. }
+  unfold handle_rp_frame, rstate.
+  cbn [s_id s_buf s_cur s_session s_blocked s_ended s_hstate s_clen s_expect s_push s_stype s_btype s_bpush
+       Z.eqb Pos.eqb negb andb is_none].
+  rewrite (pull_encode pid (blk hp) Hpid).
+  set (bp' := if fx_pushblock fx then Some pid else None).
+  assert (St : (if fx_pushblock fx then set_bpush (mkS sid [] None None false true 0 0 None None sy None None) (Some pid)
+                else mkS sid [] None None false true 0 0 None None sy None None) = rstate sid None sy bp' 0 0 None)
+    by (subst bp'; destruct (fx_pushblock fx); reflexivity).
+  rewrite St. replace (s_id (rstate sid None sy bp' 0 0 None)) with sid by reflexivity.
+  rewrite Hdp.
+  destruct (o_val O 3 hp) as [okp e0]. cbn [fst] in Hvp. subst okp. cbn [negb fst].
+  rewrite Nm. unfold endmark. rewrite andb_false_r.
+  destruct (loop_message fx O true Htr Hem sid None sy blk bp' F h body tr ecl ([] ++ [EPush sid pid hp]) Hb Hbody Htrl Hdec Hval Hcl)
+    as (e & st & Hn & S1 & S2 & S3 & Heq).
+  { unfold F, rq_fuel, Zlen in *. lia. }
+  rewrite Heq. unfold finish. rewrite S1, S2, S3. cbn [negb is_nil is_none orb andb events_of app].
+  change (norm (EPush sid pid hp :: e)) with (APush sid pid hp :: norm e). rewrite Hn. reflexivity.
+Qed.
+
+(* server side: send_push_promise, then the response on the same request stream *)
+Theorem send_promise_message : forall (sid : Z) (blk encb : Z -> list Z) (c : sconn) (m hp h : Z) (body : list (list Z)) (tr : option Z),
+  sc_client c = false -> sid mod 4 = 0 -> sc_max_push c = Some m -> sc_next_push c < m ->
+  sc_enc c <> sid -> sc_next_uni c <> sid -> sget c sid = mkSS sid 0 false ->
+  let ws := swrites c (OPush sid (encb hp) (blk hp) :: msg_ops sid blk encb h body tr) in
+  stream_bytes sid ws = encode_frame 5 (encode_uint_var (sc_next_push c) ++ blk hp) ++ msg_bytes blk h body tr /\
+  stream_fin sid ws = true /\
+  (* the push stream is announced: stream type 1, then the push id *)
+  exists rest, ws = [(sc_enc c, encb hp, false);
+                     (sid, encode_frame 5 (encode_uint_var (sc_next_push c) ++ blk hp), false);
+                     (sc_next_uni c, encode_uint_var 1, false);
+                     (sc_next_uni c, encode_uint_var (sc_next_push c), false)] ++ rest.
+Proof.
+  intros sid blk encb c m hp h body tr Hcl Hmod Hmax Hnext Henc Huni Hs. cbv zeta.
+  cbn [swrites sstep]. unfold send_push_promise. rewrite Hcl, Hmax.
+  replace (negb (sid mod 4 =? 0)) with false by lia. replace (sc_next_push c >=? m) with false by lia.
+  set (c' := mkSC false (sc_streams c) (sc_next_push c + 1) (Some m) (sc_next_uni c + 4) (sc_enc c)).
+  assert (Hs' : sget c' sid = mkSS sid 0 false) by exact Hs.
+  assert (Henc' : sc_enc c' <> sid) by exact Henc.
+  pose proof (send_message sid blk encb c' h body tr Henc' Hs') as S. unfold own in S.
+  pose proof (f_equal fst S) as S1. pose proof (f_equal snd S) as S2. cbn [fst snd] in S1, S2.
+  split; [|split].
+  - assert (SB : forall a b, stream_bytes sid (a ++ b) = stream_bytes sid a ++ stream_bytes sid b)
+      by (intros; unfold stream_bytes; apply flat_map_app).
+    rewrite SB, S1. unfold stream_bytes. cbn [flat_map]. rewrite Z.eqb_refl.
+    replace (sc_enc c =? sid) with false by lia. replace (sc_next_uni c =? sid) with false by lia.
+    cbn [app]. rewrite app_nil_r. reflexivity.
+  - assert (SF : forall a b, stream_fin sid (a ++ b) = stream_fin sid a || stream_fin sid b)
+      by (intros; unfold stream_fin; apply existsb_app).
+    rewrite SF, S2. apply orb_true_r.
+  - eexists. reflexivity.
+Qed.
+
+(* the push stream: stream type 1, the push id, then a message; the events carry the push id *)
+Theorem recv_push_stream : forall (fx : fixes) (O : oracle), fx_trunc fx = true -> fx_endmark fx = true ->
+  forall (c : conn) (psid : Z) (blk : Z -> list Z) (pid h : Z) (body : list (list Z)) (tr ecl : option Z),
+  0 <= pid < 4611686018427387904 ->
+  Zlen (blk h) < 4611686018427387904 -> Forall (fun d => Zlen d < 4611686018427387904) body ->
+  match tr with Some t => Zlen (blk t) < 4611686018427387904 /\ o_dec O psid (blk t) = DHeaders t /\ fst (o_val O 2 t) = true
+              | None => True end ->
+  o_dec O psid (blk h) = DHeaders h -> o_val O (if c_client c then 1 else 0) h = (true, ecl) ->
+  cl_ok ecl (Zlen (concat body)) ->
+  exists e st',
+    uni_full fx O (new_stream psid) c (encode_uint_var 1 ++ encode_uint_var pid ++ msg_bytes blk h body tr) true = UF e st' c [] /\
+    norm e = msg_atoms psid (Some pid) h body tr.
+Proof.
+  intros fx O Htr Hem c psid blk pid h body tr ecl Hpid Hb Hbody Htrl Hdec Hval Hcl.
+  pose proof (recv_message fx O (c_client c) Htr Hem psid (Some pid) (Some 1) blk None h body tr ecl Hb Hbody Htrl Hdec Hval Hcl) as W.
+  rewrite uni_full_spec. unfold uni_spec. cbv zeta.
+  set (msg := msg_bytes blk h body tr) in *.
+  cbn [new_stream s_buf s_stype app stream_loops orb].
+  assert (P1 : pull_uint_var (encode_uint_var 1 ++ encode_uint_var pid ++ msg) = Some (1, encode_uint_var pid ++ msg))
+    by (apply pull_encode; lia).
+  assert (Nn : is_nil (encode_uint_var 1 ++ encode_uint_var pid ++ msg) = false) by reflexivity.
+  rewrite Nn. cbn [negb].
+  unfold typed_of, ustart. cbn [new_stream s_buf s_stype s_ended s_id set_buf set_ended app orb]. rewrite P1.
+  cbn [Z.eqb Pos.eqb].
+  unfold tspec. cbn [Z.eqb Pos.eqb]. unfold push_parse.
+  cbn [new_stream set_buf set_ended set_stype s_push s_id s_buf s_cur s_session s_blocked s_ended s_hstate s_clen s_expect s_stype
+       s_btype s_bpush].
+  rewrite (pull_encode pid msg Hpid).
+  rewrite rq_recv_norm by (left; reflexivity).
+  cbn [set_push set_buf set_ended s_push s_id s_buf s_cur s_session s_blocked s_ended s_hstate s_clen s_expect s_stype s_btype s_bpush].
+  rewrite app_nil_r.
+  match goal with |- context [rq_recv fx O (c_client c) ?s msg true] =>
+    change s with (fresh_recv psid (Some pid) (Some 1) None) end.
+  destruct (rq_recv fx O (c_client c) (fresh_recv psid (Some pid) (Some 1) None) msg true) as [e st'| |];
+    cbn [events_of] in W; try discriminate.
+  cbn [of_rres]. exists e, st'. split; [reflexivity|]. inversion W. reflexivity.
+Qed.
+
+(* whole delivery -> any chunking (chunking_independent) *)
+Lemma whole_to_chunked : forall (fx : fixes) (O : oracle) (cl : bool), fx_trunc fx = true -> fx_endmark fx = true ->
+  forall st bytes a first parts, stream_ok st ->
+  events_of (rq_recv fx O cl st bytes true) = Some a -> first ++ concat parts = bytes ->
+  events_of (feed fx O cl st (mk_chunks first parts true)) = Some a.
+Proof.
+  intros fx O cl Htr Hem st bytes a first parts Hok W Hsplit.
+  pose proof (chunks_whole fx O cl Htr Hem parts st first true Hok) as C. rewrite Hsplit in C.
+  destruct (rq_recv fx O cl st bytes true) as [e s1| |]; cbn [events_of] in W; try discriminate.
+  destruct (feed fx O cl st (mk_chunks first parts true)) as [e' s1'| |]; cbn [requiv] in C; try tauto.
+  destruct C as (Cn & _). cbn [events_of]. rewrite Cn. exact W.
+Qed.
+
+(* ROUND TRIP with a push promise: server calls send_push_promise(sid, promised request) and then sends the response; the
+   client, for every chunking of the request stream, reports the promise (push id, header list) and the response *)
+Theorem roundtrip_promise : forall (fx : fixes) (O : oracle), fx_trunc fx = true -> fx_endmark fx = true ->
+  forall (sid : Z) (sy : option Z) (blk encb : Z -> list Z) (c : sconn) (m hp h : Z) (body : list (list Z)) (tr ecl : option Z)
+         (first : list Z) (parts : list (list Z)),
+  sc_client c = false -> sid mod 4 = 0 -> sc_max_push c = Some m -> 0 <= sc_next_push c < m ->
+  sc_next_push c < 4611686018427387904 ->
+  sc_enc c <> sid -> sc_next_uni c <> sid -> sget c sid = mkSS sid 0 false ->
+  Zlen (encode_uint_var (sc_next_push c) ++ blk hp) < 4611686018427387904 ->
+  o_dec O sid (blk hp) = DHeaders hp -> fst (o_val O 3 hp) = true ->
+  Zlen (blk h) < 4611686018427387904 -> Forall (fun d => Zlen d < 4611686018427387904) body ->
+  match tr with Some t => Zlen (blk t) < 4611686018427387904 /\ o_dec O sid (blk t) = DHeaders t /\ fst (o_val O 2 t) = true
+              | None => True end ->
+  o_dec O sid (blk h) = DHeaders h -> o_val O 1 h = (true, ecl) ->
+  cl_ok ecl (Zlen (concat body)) ->
+  first ++ concat parts = stream_bytes sid (swrites c (OPush sid (encb hp) (blk hp) :: msg_ops sid blk encb h body tr)) ->
+  events_of (feed fx O true (fresh_recv sid None sy None) (mk_chunks first parts true))
+  = Some (APush sid (sc_next_push c) hp :: msg_atoms sid None h body tr).
+Proof.
+  intros fx O Htr Hem sid sy blk encb c m hp h body tr ecl first parts Hcl Hmod Hmax Hnext Hsmall Henc Huni Hs Hpl Hdp Hvp
+         Hb Hbody Htrl Hdec Hval Hclen Hsplit.
+  destruct (send_promise_message sid blk encb c m hp h body tr Hcl Hmod Hmax ltac:(lia) Henc Huni Hs) as (S1 & _ & _).
+  cbv zeta in S1. rewrite S1 in Hsplit.
+  eapply whole_to_chunked; eauto; [apply fresh_recv_ok|].
+  apply (recv_promise_message fx O Htr Hem sid sy blk (sc_next_push c) hp h body tr ecl); auto. lia.
 Qed.
